@@ -25,6 +25,25 @@ REGISTRY = {
         "assumptions": ["BTreeMap is a sorted, key-unique map (by_start/by_size modelled as one sorted run list)",
                         "precondition of the theorems: 16 < device sectors and device bytes < 2^64 (validate_device_size)"],
     },
+    "C10": {
+        "title": "documented v1/v2/v3 layout",
+        "teq": [
+            {"engine": "codec", "quick": {}, "thorough": {"tier": "thorough"}, "oracle": False, "mismatch_is_failure": True,
+             "nontrivial": lambda case, res: True,
+             "what": "pure format functions through hook H3 (crc32c, record/marker tokens, marker fill, journal encode/decode with damaged slots, metadata encode/decode, record serialize/parse/header_range/stamp/sector_holds for v1,v2,v3 at boundary key and value lengths) vs the Coq codecs written from the documented layout"},
+            {"engine": "flushimg", "quick": {}, "thorough": {"tier": "thorough"}, "oracle": True, "mismatch_is_failure": True,
+             "nontrivial": lambda case, res: res.startswith("flushed") and "keys=-" not in res,
+             "distinct_key": lambda case, res: res,
+             "what": "whole file after flush(): the model, as an independent read-only reader of the documented layout, must find exactly the live keys/values/timestamps/expiries, a clear journal and metadata counters equal to the live totals (v1, v2, v3 devices; killed and cleanly closed processes)"},
+            {"engine": "golden", "quick": {}, "thorough": {}, "oracle": True, "mismatch_is_failure": True,
+             "nontrivial": lambda case, res: res.startswith("flushed"),
+             "distinct_key": lambda case, res: case + res,
+             "what": "golden files written by the pinned release (v3, v2, v1; /verif/golden): the model decodes each to its recorded manifest; the working tree opens each, reads back the manifest, writes more and flushes, and the model then decodes the result (legacy files must keep their record format)"},
+        ],
+        "nontrivial_rule": "codec: every case compares one function result; flushimg/golden: a case is one device file, non-trivial when it decodes to at least one live key; distinct by 64-bit hash of the decoded contents",
+        "assumptions": ["the documented layout is the one written down in coq/Model/Codec.v and MetaJournal.v header comments (README, constants.rs, metadata.rs, allocation_journal.rs)",
+                        "golden files were produced by the pinned tree with this harness' genimg workload"],
+    },
     "C17": {
         "title": "opening arbitrary or damaged files fails cleanly",
         "teq": [
